@@ -338,6 +338,55 @@ def run(prog: Program) -> Results:
                         f"{host.key}: parse_delimited_sequence is given {tokens} (it then stores an empty_line marker for a blank line next to "
                         f"the delimiter) while the same function also measures {own_flags}: the rebuild emits the blank line from both, "
                         f"i.e. two consecutive blank lines")
+    # ---------------------------------------------------------------- R-C18-10
+    from sa.rules.c01 import renderer_classes
+    r10 = res.rule("R-C18-10", "what the parser records, the renderer consults: every field a from_cst passes to its constructor is read "
+                   "through `self` by some method of the class (other than from_cst), or — for a field name no other class has — "
+                   "through an instance elsewhere; a recorded gap/layout field that nothing reads means the layout is re-invented",
+                   floor=20)
+    field_owners: dict = {}
+    for cn in prog.classes:
+        for fld in prog.fields(cn):
+            field_owners.setdefault(fld, set()).add(cn)
+    foreign_reads = set()
+    for f in prog.all_functions():
+        for n in walk_no_nested(f.node):
+            if isinstance(n, ast.Attribute) and isinstance(n.ctx, ast.Load) and not (isinstance(n.value, ast.Name) and n.value.id == "self"):
+                foreign_reads.add(n.attr)
+    for cn in renderer_classes(prog):
+        fc = prog.own_method(cn, "from_cst")
+        if fc is None:
+            continue
+        filled = set()
+        for g in [fc] + list(fc.nested.values()):
+            for call in ast.walk(g.node):
+                if isinstance(call, ast.Call) and callee(call) in ("cls", cn):
+                    filled |= {k.arg for k in call.keywords if k.arg}
+        reads = set()
+        for b in prog.mro(cn):
+            cl = prog.classes.get(b)
+            if cl is None:
+                continue
+            for m in list(cl.methods.values()) + list(cl.setters.values()):
+                if m.name == "from_cst":
+                    continue
+                for n in ast.walk(m.node):
+                    if isinstance(n, ast.Attribute) and isinstance(n.value, ast.Name) and n.value.id == "self" and isinstance(n.ctx, ast.Load):
+                        reads.add(n.attr)
+        r10.instances += 1
+        unused = []
+        for fld in sorted(filled - reads):
+            owners = {o for o in field_owners.get(fld, set()) if not (prog.is_subclass(o, cn) or prog.is_subclass(cn, o))}
+            if fld in foreign_reads and not owners:
+                continue  # read through instances elsewhere and no unrelated class shares the name
+            if cn == "NixSourceCode" and fld == "node":
+                continue  # the CST root is kept for callers, not for rendering
+            unused.append(fld)
+        r10.ob(not unused, {"class": cn, "fields_filled_by_from_cst": len(filled)} if not unused else {"class": cn, "never_read": unused})
+        for fld in unused:
+            res.add("R-C18-10", (cn, "recorded field never consulted", fld), prog.own_method(cn, "rebuild").loc() if prog.own_method(cn, "rebuild") else fc.loc(),
+                    f"{cn}: from_cst records `{fld}` but no method of the class reads `self.{fld}`: the recorded layout is dropped and the "
+                    f"renderer falls back to a synthesised one (spaces/newlines that were not in the input)")
     res.assumptions = ["`;`/`:` attachment and exactly-one-space between tokens are value-level facts not decided here"]
     return res
 
